@@ -478,7 +478,7 @@ def assert_normalized(
         if normalization == "component":
             targets = [1.0] * len(irreps)
         elif normalization == "norm":
-            targets = [1.0 / math.sqrt(ir.dim) for _, ir in irreps]
+            targets = [1.0 / ir.dim for _, ir in irreps]
 
         for i, (target, ir_slice) in enumerate(zip(targets, irreps.slices())):
             if ir_slice.start == ir_slice.stop:
